@@ -54,13 +54,32 @@ type lwwMerge struct {
 	Order []int          `json:"order"`
 }
 
+// expires: a Put followed by an Expire (a write with its own, newer timestamp) and then a conflicting OLDER copy of
+// the key: "merge" re-delivers the entry as it was before the Expire through MOVEFRAGMENT to the owner, "backup"
+// puts it back on the first backup owner (DM.PUTENTRY) and reads the key.
+type lwwExpire struct {
+	Mode string `json:"mode"`
+}
+
+type lwwExpireObs struct {
+	Old    copyObs `json:"old"`    // the owner's copy before the Expire
+	Newest copyObs `json:"newest"` // the entry the Expire wrote, as the second backup owner holds it
+	Reply  string  `json:"reply"`  // of the conflicting delivery
+	Owner  copyObs `json:"owner"`  // the owner's copy afterwards
+	Backup copyObs `json:"backup"` // the first backup owner's copy afterwards
+	GetRes string  `json:"get"`
+	GetTTL int64   `json:"get_ttl"`
+	GetTS  int64   `json:"get_ts"`
+}
+
 type lwwScenario struct {
-	ID     int        `json:"id"`
-	RR     bool       `json:"rr"`
-	RQ     int        `json:"rq"`
-	Gets   []lwwGet   `json:"gets"`
-	Merges []lwwMerge `json:"merges"`
-	Race   bool       `json:"race"`
+	ID      int         `json:"id"`
+	RR      bool        `json:"rr"`
+	RQ      int         `json:"rq"`
+	Gets    []lwwGet    `json:"gets"`
+	Merges  []lwwMerge  `json:"merges"`
+	Expires []lwwExpire `json:"expires"`
+	Race    bool        `json:"race"`
 }
 
 type lwwGetObs struct {
@@ -98,6 +117,7 @@ type lwwResult struct {
 	Env    string        `json:"env,omitempty"`
 	Gets   []lwwGetObs   `json:"gets,omitempty"`
 	Merges []lwwMergeObs `json:"merges,omitempty"`
+	Expires []lwwExpireObs `json:"expires,omitempty"`
 	Race   *lwwRaceObs   `json:"race,omitempty"`
 }
 
@@ -180,6 +200,15 @@ func runLWW(sc *lwwScenario) (res lwwResult) {
 			return
 		}
 		res.Merges = append(res.Merges, ob)
+	}
+
+	for xi, x := range sc.Expires {
+		ob, env := lwwOneExpire(ctx, cl, fmt.Sprintf("x%d-%d", sc.ID, xi), x)
+		if env != "" {
+			res.Env = env
+			return
+		}
+		res.Expires = append(res.Expires, ob)
 	}
 
 	if sc.Race {
@@ -335,6 +364,85 @@ func lwwOneMerge(ctx context.Context, cl *Cluster, name string, mg lwwMerge) (ob
 		}
 		ob.Final = append(ob.Final, lwwItem{H: it.HKey, Val: v, TS: it.TS})
 	}
+	return ob, ""
+}
+
+func lwwOneExpire(ctx context.Context, cl *Cluster, name string, x lwwExpire) (ob lwwExpireObs, env string) {
+	// a key owned by member 0
+	key := ""
+	var ki KeyInfo
+	for i := 0; i < 400 && key == ""; i++ {
+		k := fmt.Sprintf("ek%d", i)
+		if ki = cl.KeyInfo(name, k); ki.Owner == 0 && len(ki.Backups) >= 2 {
+			key = k
+		}
+	}
+	if key == "" {
+		return ob, "no key owned by member 0"
+	}
+	owner := cl.Members[0]
+	dm, err := owner.Emb.NewDMap(name)
+	if err != nil {
+		return ob, err.Error()
+	}
+	c, cancel := context.WithTimeout(ctx, 20*time.Second)
+	defer cancel()
+	if err := dm.Put(c, key, "v1"); err != nil {
+		return ob, "Put: " + err.Error()
+	}
+	old := owner.DB.VerifDMap().VerifCopy(partitions.PRIMARY, name, ki.HKey)
+	ob.Old = copyObs{Found: old.Found, Val: string(old.Value), TS: old.Timestamp, TTL: old.TTL}
+	time.Sleep(2 * time.Millisecond)
+	if err := dm.Expire(c, key, time.Hour); err != nil {
+		return ob, "Expire: " + err.Error()
+	}
+	b1, b2 := ki.Backups[0], ki.Backups[1]
+	nw := cl.Members[b2].DB.VerifDMap().VerifCopy(partitions.BACKUP, name, ki.HKey)
+	ob.Newest = copyObs{Found: nw.Found, Val: string(nw.Value), TS: nw.Timestamp, TTL: nw.TTL}
+	en := entry.New()
+	en.SetKey(key)
+	en.SetValue(old.Value)
+	en.SetTimestamp(old.Timestamp)
+	en.SetTTL(old.TTL)
+	switch x.Mode {
+	case "merge":
+		t := table.New(8 * lwwTable)
+		if err := t.Put(ki.HKey, en); err != nil {
+			return ob, err.Error()
+		}
+		tbl, err := table.Encode(t)
+		if err != nil {
+			return ob, err.Error()
+		}
+		p, err := msgpack.Marshal(&fragPack{PartID: ki.Part, Kind: partitions.PRIMARY, Name: name, Payload: tbl})
+		if err != nil {
+			return ob, err.Error()
+		}
+		if err := cl.Raw(0).Process(c, protocol.NewMoveFragment(p).Command(c)); err != nil {
+			ob.Reply = "err:" + respEnum(err.Error())
+		} else {
+			ob.Reply = "ok"
+		}
+	default:
+		cmd := protocol.NewPutEntry(name, key, en.Encode()).Command(c)
+		if err := cl.Raw(b1).Process(c, cmd); err != nil {
+			ob.Reply = "err:" + respEnum(err.Error())
+		} else {
+			ob.Reply = "ok"
+		}
+	}
+	g, err := dm.Get(c, key)
+	if err != nil {
+		ob.GetRes = olricErr(err)
+	} else {
+		ob.GetRes = "ok"
+		ob.GetTTL = g.TTL()
+		ob.GetTS = g.Timestamp()
+	}
+	oc := owner.DB.VerifDMap().VerifCopy(partitions.PRIMARY, name, ki.HKey)
+	ob.Owner = copyObs{Found: oc.Found, Val: string(oc.Value), TS: oc.Timestamp, TTL: oc.TTL}
+	bc := cl.Members[b1].DB.VerifDMap().VerifCopy(partitions.BACKUP, name, ki.HKey)
+	ob.Backup = copyObs{Found: bc.Found, Val: string(bc.Value), TS: bc.Timestamp, TTL: bc.TTL}
 	return ob, ""
 }
 
